@@ -2,6 +2,7 @@
 from __future__ import annotations
 
 import math
+import os
 import re
 import traceback
 from typing import Any, Dict, List, Optional, Tuple
@@ -620,6 +621,65 @@ def bounded_progress(run, rng, case_id: int) -> None:
     run.case(['bounded', shape, limit, n_top], True, sample={'shape': shape, 'recur_limit': limit, 'calls': calls[0], 'budget': budget, 'outcome': outcome} if case_id < 2 else None, tag='bounded-progress')
 
 
+def rewritten_file(run, rng, case_id: int) -> None:
+    """collapse_all twice in one process with the instance file rewritten in between (a compiler run per map, an editor that
+    saves the instance): each call copies what the file holds at the time of that call."""
+    import tempfile, shutil
+    from srctools.vmf import VMF
+    from srctools import instancing
+    from srctools.filesys import RawFileSystem, VirtualFileSystem
+    classes = ['logic_relay', 'info_target', 'env_sprite', 'prop_dynamic', 'logic_auto', 'math_counter']
+
+    def version():
+        v = VMF()
+        want = []
+        for j in range(rng.randint(1, 4)):
+            cls = rng.choice(classes)
+            marker = f'm{rng.randrange(10 ** 6)}'
+            v.create_ent(cls, targetname=f'e{j}', origin=f'{16 * j} 0 0', marker=marker)
+            want.append((cls, marker))
+        return v.export(inc_version=False), sorted(want)
+
+    backend = rng.choice(('raw-fresh', 'raw-same', 'virtual-fresh'))
+    fname = rng.choice(('inst.vmf', 'sub/inst.vmf', 'Inst.VMF'))
+    tmp = tempfile.mkdtemp(prefix='rv-c17-')
+    case = {'id': case_id, 'rewritten_file': True, 'backend': backend}
+    try:
+        fsys = None
+        for generation in range(rng.choice((2, 2, 3))):
+            text, want = version()
+            if backend.startswith('raw'):
+                path = os.path.join(tmp, fname)
+                os.makedirs(os.path.dirname(path), exist_ok=True)
+                with open(path, 'w') as f:
+                    f.write(text)
+                if fsys is None or backend == 'raw-fresh':
+                    fsys = RawFileSystem(tmp)
+            else:
+                fsys = VirtualFileSystem({fname: text})
+            top = VMF()
+            n_inst = rng.choice((1, 2))
+            for j in range(n_inst):
+                top.create_ent('func_instance', file=fname, origin=f'0 {256 * j} 0', angles='0 0 0', targetname=f'i{j}')
+            try:
+                instancing.collapse_all(top, fsys)
+            except Exception as exc:
+                run.violation(f'collapse_all raised {type(exc).__name__}: {exc} (generation {generation} of the file, {backend})',
+                              witness=traceback.format_exc()[-800:], case=case, engine='rewritten-file', key='collapse-all-raises')
+                return
+            got = sorted((e['classname'], e['marker']) for e in top.entities if 'marker' in e)
+            run.count('collapses_of_a_rewritten_file')
+            if got != sorted(want * n_inst):
+                run.violation(f'collapse_all copied {got} although the instance file holds {want} at the time of the call '
+                              f'(generation {generation} of the file, {backend})',
+                              witness={'file_holds': want, 'copied': got, 'instances': n_inst}, case=case,
+                              engine='rewritten-file', key='stale-instance-file')
+                return
+        run.case(['rewritten', backend, fname], True, tag='rewritten-file')
+    finally:
+        shutil.rmtree(tmp, ignore_errors=True)
+
+
 def nested_names(run, rng, case_id: int) -> None:
     """collapse_all over a non-recursive graph of (partly unnamed) instances at several nesting depths.  Every copy of the
     leaf template must stay a separate copy: its relay and its target carry one and the same instance name, no two copies
@@ -721,16 +781,21 @@ def main(run, shard=(0, 1)) -> None:
     for i in range(10000 if thorough else 150):
         if mine(i, shard):
             nested_names(run, sub_rng(run.seed, 'nested', i), i)
+    for i in range(3000 if thorough else 60):
+        if mine(i, shard):
+            rewritten_file(run, sub_rng(run.seed, 'rewritten', i), i)
     probe.report(run)
     probe.check_reached(run)
     run.require('collapses', 'hidden_entity_brushes_checked', 'nested_name_maps', 'nested_copies_checked', 'nested_fixup_values_checked', 'collapses_keeping_visgroups', 'collapsed_copies_mutated', 'typed_positions_checked', 'typed_angle_keys_checked', 'variables_in_untransformed_keys_checked', 'nested_fixup_values_with_variables', 'typed_directions_checked', 'typed_axes_checked', 'typed_sidelists_checked', 'typed_nodeids_checked', 'typed_name_or_class_checked', 'typed_pitch_checked', 'plane_points_checked', 'texture_projections_checked', 'origins_checked', 'orientations_checked',
-                'names_checked', 'substitutions_checked', 'template_snapshots_compared', 'collapse_all_runs', 'displacements_checked')
+                'names_checked', 'substitutions_checked', 'template_snapshots_compared', 'collapse_all_runs', 'displacements_checked', 'collapses_of_a_rewritten_file')
 
 
 def replay(run, data) -> None:
     case = data['case']
     if case.get('bounded'):
         bounded_progress(run, sub_rng(run.seed, 'bounded', int(case['id'])), int(case['id']))
+    elif case.get('rewritten_file'):
+        rewritten_file(run, sub_rng(run.seed, 'rewritten', int(case['id'])), int(case['id']))
     elif case.get('nested_names'):
         nested_names(run, sub_rng(run.seed, 'nested', int(case['id'])), int(case['id']))
     else:
@@ -740,4 +805,4 @@ def replay(run, data) -> None:
 
 
 # (kept at the end of the file so that the text above stays the description the check was first built to)
-RULE += ' ' + "Later additions: ANGLES-typed keyvalues other than angles (movedir, pushdir, spraydir, ajarangles); every field of an output; variable names that are prefixes of each other and values with backslashes / '$'."
+RULE += ' ' + "Later additions: ANGLES-typed keyvalues other than angles (movedir, pushdir, spraydir, ajarangles); every field of an output; variable names that are prefixes of each other and values with backslashes / '$'. collapse_all is called two or three times in one process with the instance file rewritten in between (same folder, fresh or reused filesystem object): each call copies what the file holds at that time."
